@@ -60,7 +60,7 @@ class Ctx:
             # the rejection clauses (C10) are not repeated here
             if clause.startswith("raises:") or "compatible" in clause or "rejects" in clause:
                 return
-            props = ["C04"] + (["C16"] if "C16" in props else [])
+            props = ["C04"] + (["C16"] if "C16" in props else []) + (["C06"] if "C06" in props and self.method == "copy" else [])
         s = st.fork()
         if callable(goal):
             goal = goal(s)
@@ -397,8 +397,12 @@ def base_state():
     return st
 
 
-def other_variants(K, method):
+def other_variants(K, method, mode="live"):
     vs = ["same-class", "alias", "foreign", "none"]
+    if mode != "live":
+        # reloaded pre-states serve the usability clauses of C04 only (Ctx.emit drops the rejection clauses there):
+        # operands of another type have nothing to contribute
+        vs = ["same-class", "alias"]
     return vs
 
 
@@ -454,11 +458,50 @@ def ob_zero(P, K, hooks=None, mode="live"):
     return cx
 
 
+def ob_copy(P, K, hooks=None, mode="live"):
+    """Container.copy(): a new aggregator with the same content that shares nothing with the original, for live and
+    for reloaded (ed / fromJson built) containers alike"""
+    cx = Ctx(P, K, "copy", mode if mode == "live" else "reloaded", hooks)
+    st = base_state()
+    selfv = schema.make_instance(st, K, 1, mode=mode, bk=True)
+    pre = st.fork()
+    a = view_of(pre, selfv, K)
+    keep = ["C06", "C04"] if mode == "live" else ["C04"]
+    for i, r in enumerate(run_method(cx, st, [selfv])):
+        p = f"p{i}" + (f":{r.exc.cls}@{r.exc.origin}" if r.exc is not None else "")
+        if r.exc is not None:
+            cx.emit(keep, "ensures:no-raise", p, r.st, z3.BoolVal(False))
+            continue
+        s = r.st
+        cx.emit(["C06"], "ensures:fresh", p, s, lambda s2: fresh_goal(s2, K, r.v))
+        cx.emit(["C06"], "ensures:no-internal-sharing", p, s, lambda s2: distinct_children_goal(s2, K, r.v))
+        cx.emit(["C06"], "ensures:frame", p, s, lambda s2: frame_goal(s2, pre))
+        if isinstance(r.v, VObj):
+            # the content of self + zero(self); that this is the content of self is the identity law L-id (laws.py)
+            if K in MOMENT:
+                cx.emit(keep, "ensures:view-of-self-plus-zero", p, s, lambda s2: plus_goal(s2, K, a, specs.zero(K, s2, a), view_of(s2, r.v, K)))
+            else:
+                cx.emit(keep, "ensures:view-of-self-plus-zero", p, s, lambda s2: eq_views(s2, K, view_of(s2, r.v, K), specs.plus(K, s2, a, specs.zero(K, s2, a))))
+        cx.emit(keep, "ensures:wf", p, s, lambda s2: wf_goal(s2, K, r.v))
+    return cx
+
+
+def tolerance_hooks(hooks):
+    """merging must not depend on the comparison tolerances of histogrammar.util (they exist for approximate
+    equality only): the merge obligations run with both tolerances symbolic and non-negative"""
+    rt, at = z3.Real("util.relativeTolerance"), z3.Real("util.absoluteTolerance")
+    h = dict(hooks or {})
+    h["global_overrides"] = {("histogrammar.util", "relativeTolerance"): VFl(Fl.fin(rt)), ("histogrammar.util", "absoluteTolerance"): VFl(Fl.fin(at))}
+    return h, [rt >= 0, at >= 0]
+
+
 def ob_add(P, K, hooks=None, mode="live"):
     out = []
-    for variant in other_variants(K, "__add__"):
+    hooks, tolfacts = tolerance_hooks(hooks)
+    for variant in other_variants(K, "__add__", mode):
         cx = Ctx(P, K, "__add__", variant if mode == "live" else f"{mode}:{variant}", hooks)
         st = base_state()
+        st.add(*tolfacts)
         selfv = schema.make_instance(st, K, 1, mode=mode, bk=True)
         other = make_other(st, K, variant, selfv, bk=True, mode=mode)
         pre = st.fork()
@@ -541,9 +584,11 @@ def bk_goal(st, K, resv, pre=None, pre_objs=()):
 
 def ob_iadd(P, K, hooks=None, mode="live"):
     out = []
-    for variant in other_variants(K, "__iadd__"):
+    hooks, tolfacts = tolerance_hooks(hooks)
+    for variant in other_variants(K, "__iadd__", mode):
         cx = Ctx(P, K, "__iadd__", variant if mode == "live" else f"{mode}:{variant}", hooks)
         st = base_state()
+        st.add(*tolfacts)
         selfv = schema.make_instance(st, K, 1, mode=mode, bk=True)
         other = make_other(st, K, variant, selfv, bk=True, mode=mode)
         pre = st.fork()
